@@ -287,6 +287,9 @@ def gen(rng, tier):
     for i in range(120 if quick else 3000):
         yield {"op": "polyline", "stream": "lattice", "n": rng.choice([1, 2, 3, 6]), "closed": bool(i % 2),
                "decimals": rng.choice([0, 0, 1, 2, 3, None]), "seed": rng.randrange(1 << 30)}
+    for i in range(40 if quick else 600):
+        yield {"op": "polyline", "stream": "lattice" if i % 2 else "float", "n": rng.choice([2, 3, 4, 6]), "closed": i % 4 != 3,
+               "decimals": rng.choice([0, 1, 2, 3, 6, None]), "seed": rng.randrange(1 << 30), "seam": True}
     # (2) planes
     n_plane = 260 if quick else 6000
     for i in range(n_plane):
@@ -455,6 +458,8 @@ def polyline_vertices(spec):
         v = [lattice_coord(rng, dd) if spec["stream"] == "lattice" else coord(rng) for _ in range(3)]
         if all(round_determined(x, dd) for x in v):
             vs.append(v)
+    if spec.get("seam") and len(vs) >= 2:
+        vs[-1] = list(vs[0])        # the last vertex repeats the first (a ring exported with its seam vertex): still n vertices
     return vs
 
 
